@@ -499,6 +499,20 @@ func one(raw json.RawMessage) interface{} {
 		coca := os.Getenv("VERIF_COCA")
 		cmd := exec.Command(coca, "git")
 		cmd.Dir = dir
+		// a third of the repositories are analysed from inside one of their directories (the log is the log of the whole
+		// repository wherever the command is started)
+		reporter := dir
+		if h := len(c.Case) + len(c.History); h%3 == 1 {
+			if ents, err := os.ReadDir(dir); err == nil {
+				for _, e := range ents {
+					if e.IsDir() && e.Name() != ".git" && e.Name() != "coca_reporter" {
+						cmd.Dir = filepath.Join(dir, e.Name())
+						reporter = cmd.Dir
+						break
+					}
+				}
+			}
+		}
 		tmp := filepath.Join(scratch, "tmp")
 		os.MkdirAll(tmp, 0o755)
 		cmd.Env = append(os.Environ(), "TMPDIR="+tmp, "HOME="+dir, "GIT_CONFIG_NOSYSTEM=1", "LC_ALL=C.UTF-8")
@@ -508,7 +522,7 @@ func one(raw json.RawMessage) interface{} {
 			rec.Observed.Note = tailStr(string(out), 400)
 			return rec
 		}
-		b, err := os.ReadFile(filepath.Join(dir, "coca_reporter", "commits.json"))
+		b, err := os.ReadFile(filepath.Join(reporter, "coca_reporter", "commits.json"))
 		if err != nil {
 			rec.Observed.CliFailed = true
 			rec.Observed.Note = "no commits.json: " + tailStr(string(out), 300)
